@@ -120,6 +120,9 @@ type VC struct {
 	preEval  map[ast.Expr]Term
 	argTerms []Term // evaluated arguments of the call whose anchored items are being applied
 	privSlices map[types.Object]bool // private local slices of the function under verification (private.go)
+	privStructs map[types.Object]bool // private struct-valued locals/parameters (private.go)
+	privPtrs map[types.Object]bool // private pointers to objects under construction (private.go)
+	curCall  *ast.CallExpr // the call being dispatched (innermost)
 	inSpec   int // > 0 while a specification expression is being evaluated (no code-level checks)
 	resultGoTypesOverride []types.Type // Go types of result0.. for return-statement anchors
 }
@@ -400,14 +403,19 @@ func (vc *VC) havocHeap(st *State, why string) {
 		if isGhostName(n) || strings.HasPrefix(n, "const$") || vc.prog.stableHeap[n] || heapStructVal[n] {
 			continue
 		}
-		if strings.HasPrefix(n, "Elems$") {
+		if strings.HasPrefix(n, "Elems$") || strings.HasPrefix(n, "F$") {
 			if t, ok := st.heap[n]; ok {
 				oldElems[n] = t
 			}
 		}
 		st.heap[n] = vc.fresh(n, vc.universe[n])
 	}
-	if why == "loop" || len(vc.privSlices) == 0 {
+	if why == "loop" {
+		return
+	}
+	// private struct locals (private.go): top-level fields keep their values
+	vc.keepPrivateStructs(st, oldElems)
+	if len(vc.privSlices) == 0 {
 		return
 	}
 	// private local slices (private.go): a backing array allocated by this activation that only
@@ -437,6 +445,8 @@ func (vc *VC) havocHeap(st *State, why string) {
 
 // havocExternalHeap: library call that cannot touch rqlite struct fields.
 func (vc *VC) havocExternalHeap(st *State) {
+	old := vc.snapshotFields(st)
+	defer vc.keepPrivateStructs(st, old)
 	for _, n := range vc.sortedUniverse() {
 		if isGhostName(n) || strings.HasPrefix(n, "const$") || heapStructVal[n] {
 			continue
